@@ -17,6 +17,9 @@ from entity_query_language import symbol, let, an, entity, infer, symbolic_mode,
 from entity_query_language.symbolic import SymbolicExpression, Variable, _symbolic_mode
 
 
+BUILT = []        # instances constructed by user-defined __new__ methods of other classes (drained into the model)
+
+
 def _make_class(spec, classes):
     name = spec["name"]
     base = classes[spec["base"]] if spec.get("base") else object
@@ -58,6 +61,16 @@ def _make_class(spec, classes):
         # a user __new__ that delegates to the parent's (possibly already hybrid) constructor
         def __new__(c, *a, **k):
             return super(cls, c).__new__(c)
+        cls.__new__ = __new__
+    elif new_style == "builder" and spec.get("builds") in classes:
+        # a user __new__ that assembles parts: it concretely constructs instances of ANOTHER @symbol class
+        part_cls = classes[spec["builds"]]
+
+        def __new__(c, *a, **k):
+            inst = super(cls, c).__new__(c)
+            for n in range(2):
+                BUILT.append(part_cls(f0=9000 + len(BUILT)))
+            return inst
         cls.__new__ = __new__
     elif new_style == "singleton":
         # a flyweight constructor: one instance per class, returned again on every construction
@@ -107,7 +120,7 @@ class C14(Prop):
                          "probe:abandoned_registry_query", "probe:kwargs_filtered_query",
                          "probe:many_instances_constructed", "probe:multiple_inheritance_class",
                          "probe:declared_earlier_query_judged", "probe:constructor_returned_existing_instance",
-                         "probe:user_defined_new"]}
+                         "probe:user_defined_new", "probe:instance_built_inside_user_new"]}
 
     # ------------------------------------------------------------------ generation
     def gen(self, rng, tier, campaign):
@@ -124,8 +137,9 @@ class C14(Prop):
             if base is not None and len(classes) >= 2 and rng.random() < 0.2:
                 cands = [c["name"] for c in classes if c["name"] != base and c["style"] == style]
                 base2 = rng.choice(cands) if cands else None
-            new_style = rng.choice([None, None, None, None, None, "super", "singleton"])
-            classes.append({"name": f"K{i}", "base": base, "base2": base2, "style": style, "new": new_style,
+            new_style = rng.choice([None, None, None, None, None, "super", "singleton", "builder"])
+            builds = rng.choice([c["name"] for c in classes]) if classes else None
+            classes.append({"name": f"K{i}", "base": base, "base2": base2, "style": style, "new": new_style, "builds": builds,
                             "double_symbol": rng.random() < 0.08,
                             "decorated": True if base is None else rng.random() < 0.5,
                             "eq": rng.random() < 0.4,
@@ -176,6 +190,7 @@ class C14(Prop):
         set_current(sim)
         res = Result()
         reset()
+        del BUILT[:]
         classes = {}
         try:
             for spec in plan["classes"]:
@@ -206,6 +221,15 @@ class C14(Prop):
         def label(o):
             return labels.get(id(o), "?" + type(o).__name__)
 
+        def drain_built():
+            while BUILT:
+                part = BUILT.pop(0)
+                if not any(part is x for x in model):
+                    labels[id(part)] = f"{type(part).__name__}#part{len(keep)}"
+                    keep.append(part)
+                    model.append(part)
+                    sim.count("probe:instance_built_inside_user_new")
+
         def construct(cname, style, v):
             cls = classes[cname]
             sim.cb_enabled = True
@@ -220,6 +244,7 @@ class C14(Prop):
                     o = cls(f0=v)
             finally:
                 sim.cb_enabled = False
+            drain_built()
             if any(o is x for x in model):
                 sim.count("probe:constructor_returned_existing_instance")
                 return o                  # a flyweight __new__ handed out an instance that is already registered
@@ -310,6 +335,7 @@ class C14(Prop):
                                     got = list(q.evaluate())
                                 finally:
                                     sim.cb_enabled = False
+                                drain_built()
                                 for n, o in enumerate(got):
                                     if isinstance(o, SymbolicExpression) or type(o) is not head_cls:
                                         sim.count("infer_unexpected_result")
@@ -331,6 +357,7 @@ class C14(Prop):
                             c.clear()
                         Variable._cache_.clear()
                         model.clear()
+                        del BUILT[:]
                         cleared = True
                         cleared_count[0] += 1
                         sig.append(("clear",))
